@@ -342,6 +342,19 @@ func ruleReceiptFlow(r *Run) {
 				r.CheckT("I5", worker.Name+":verifies-received", strings.HasSuffix(c, ".ReceiptChan") || strings.HasPrefix(c, "<-"), ev.Pos, path, "what is verified is the payload taken from the queue (%s)", c)
 			}
 		}
+		for _, ev := range path.Events[recvIdx:] {
+			if ev.Kind == EvAssign {
+				for _, l := range ev.Lhs {
+					if _, isIdent := ast.Unparen(l).(*ast.Ident); isIdent {
+						continue
+					}
+					c := r.P.Canon(worker, l)
+					if strings.Contains(c, ".ReceiptChan") {
+						r.CheckT("I5", worker.Name+":payload-untouched", false, ev.Pos, path, "the worker rewrites the received payload (%s) before verifying / forwarding it: what is verified or forwarded is no longer what the client submitted", c)
+					}
+				}
+			}
+		}
 		switch verdict {
 		case "ok":
 			nFwd++
